@@ -520,12 +520,18 @@ namespace bloch::update {
                                                  const std::string& assetName) {
             std::istringstream in(content);
             std::string line;
+            // Each line is "<hash>  <file name>" (sha256sum format; a '*' before the name marks
+            // binary mode). The file-name field must equal the asset name: a substring test would
+            // also pick "<asset>.sig" or any longer name that merely contains it.
             while (std::getline(in, line)) {
-                if (line.find(assetName) == std::string::npos)
-                    continue;
                 std::istringstream parts(line);
                 std::string hash;
-                if (parts >> hash)
+                std::string name;
+                if (!(parts >> hash >> name))
+                    continue;
+                if (name.front() == '*')
+                    name.erase(name.begin());
+                if (name == assetName)
                     return hash;
             }
             return std::nullopt;
